@@ -1,6 +1,22 @@
+import os as _os
+
+def _theorems():
+    """property theorems of Props/C20.lean and Props/C20Modules.lean (the latter imports the former)"""
+    import re as _re
+    here = _os.path.dirname(_os.path.dirname(_os.path.abspath(__file__)))
+    names = []
+    for f in ("C20.lean", "C20Modules.lean"):
+        src = open(_os.path.join(here, "lean", "HvPart", "HvPart", "Props", f)).read()
+        src = _re.sub(r"/-.*?-/", "", src, flags=_re.S)
+        for m in _re.finditer(r"^theorem\s+([^\s:({\[]+)", src, _re.M):
+            if not m.group(1).startswith("aux_"):
+                names.append("HvPart." + m.group(1))
+    return names
+
 SPEC = dict(
     id="C20",
-    lean_project="HvPart", props_module="HvPart.Props.C20", driver="hvdrv_part",
+    lean_project="HvPart", props_module="HvPart.Props.C20Modules", driver="hvdrv_part",
+    theorems=_theorems(),
     harness="hv_part", bin="hv_part", mode="c20",
     cases={"quick": 1800, "thorough": 40000},
     level="proof",
@@ -11,9 +27,16 @@ SPEC = dict(
                 "(removeNode_wires); insert_intermediate_node replaces one edge by two with the old outer ports and elided ports at the new node "
                 "(insertNode_wires, also the 'exactly one handoff per edge' primitive of C18); eliminate_extra_unions_tees is exactly a sequence "
                 "of such contractions of the single-input single-output union/tee operators of the graph it was given "
-                "(eliminate_is_removal_sequence, findUnaryOps_spec, eliminate_preserves_wiring). PARTIAL: of the assert_valid invariant only "
-                "the insert_edge clause is a theorem (insertEdge_registers_partial); merge_modules and the serde JSON round trip are not "
-                "theorems. Tie: on generated programs the real FlatGraphBuilder output is dumped (nodes, edges with slot-map keys, ports), "
+                "(eliminate_is_removal_sequence, findUnaryOps_spec, eliminate_preserves_wiring). merge_modules (Props/C20Modules.lean): remove_module_boundary reports its "
+                "diagnostic exactly when the port keys of the in-edges and out-edges of the boundary differ (removeModuleBoundary_error_iff); "
+                "otherwise every iteration removes the in-edge and out-edge with one port key and inserts one edge from the outer producer to "
+                "the outer consumer keeping the producer's source port and the consumer's destination port (mmStep_wires), the boundary node is "
+                "dropped, every wire not removed survives with its ports (removeModuleBoundary_wires, _wires_perm, _keeps_other_wires), and "
+                "merge_modules is exactly the sequence of these removals over the module-boundary nodes of the initial graph, an error "
+                "propagating (mergeModules_is_boundary_sequence, mergeModules_preserves_wiring(_perm), mergeModules_nodes) - freshness of the "
+                "allocated slot-map keys (mmFresh) is a hypothesis there as in the other wiring theorems. PARTIAL: of the assert_valid invariant "
+                "only the insert_edge clause is a theorem (insertEdge_registers_partial); the serde JSON round trip is not a theorem (it "
+                "cannot be modelled; judged by the oracle). Tie: on generated programs the real FlatGraphBuilder output is dumped (nodes, edges with slot-map keys, ports), "
                 "eliminate_extra_unions_tees / insert_intermediate_node / merge_modules (on synthetic module-boundary graphs) are run on the real "
                 "DfirGraph and on the compiled model, and node list, edge list with keys in iteration order, adjacency lists, wiring and the "
                 "assert_valid predicate are diffed exactly; independently the harness contracts unary unions/tees out of the original wiring and "
